@@ -321,7 +321,38 @@ class Externals(object):
         raise Unsupported("str.%s on %r" % (name, s), node)
 
     def percent_format(self, interp, template, args, node):
-        return mkstr([template] + [Hole(a) for a in args])
+        """'text %s ...' % args with the same rope as the equivalent str.format call: %s of a string is the string, of a
+        number the (raw, str()) rendering of that number; %d of an integer its decimal digits; %% a percent sign.
+        Other conversions (precision, %f, %r, mapping keys) are outside the subset."""
+        import re as _re4
+        parts = []
+        pos = 0
+        k = 0
+        for m in _re4.finditer(r"%(.)", template):
+            parts.append(template[pos:m.start()])
+            conv = m.group(1)
+            pos = m.end()
+            if conv == "%":
+                parts.append("%")
+                continue
+            if conv not in ("s", "d") or k >= len(args):
+                raise Unsupported("%%-format conversion %r in %r" % (m.group(0), template), node)
+            v = args[k]
+            k += 1
+            if conv == "s" and is_strlike(v):
+                parts.append(v)
+            elif conv == "s" and (v is None or isinstance(v, bool)):
+                parts.append(str(v))
+            elif isinstance(v, int) and not isinstance(v, bool):
+                parts.append(str(v))
+            elif conv == "s" and not isinstance(v, (Obj, PyList, PyDict, tuple)):
+                parts.append(Hole(v))
+            else:
+                raise Unsupported("%%%s of %r" % (conv, v), node)
+        if k != len(args):
+            raise PyExc("TypeError", ("not all arguments converted during string formatting",))
+        parts.append(template[pos:])
+        return mkstr(parts)
 
     def slice(self, interp, base, lo, hi, node):
         if is_symstr(base):
